@@ -376,12 +376,14 @@ func (m *Map[K, V, H]) Iter() func() (K, V, bool) {
 		return func() (k K, v V, ok bool) { return }
 	}
 	gi := 0
-	grp := &m.groups[0]
 	i := -1
 	return func() (k K, v V, ok bool) {
 		if gi >= len(m.groups) {
 			return
 		}
+		// don't keep a pointer to a group between calls
+		// because copy-on-write may replace m.groups
+		grp := &m.groups[gi]
 		for {
 			if i++; i >= groupSize {
 				i = 0
